@@ -14,7 +14,7 @@ one() {
   rsync -a --exclude .git /repo/ $scratch/repo/
   cp /verif/known_findings.json $scratch/home/
   if ! (cd $scratch/repo && patch -p1 -s < $d/patch.diff >/dev/null 2>&1); then echo -e "$seed\tPATCH-FAILED\t\t" ; rm -rf $scratch; return; fi
-  res=$(GSVERIF_REPO=$scratch/repo GSVERIF_HOME=$scratch/home /verif/bin/gsverif checkall 2>&1)
+  res=$(GSVERIF_REPO=$scratch/repo GSVERIF_HOME=$scratch/home ${GSVERIF_BIN:-/verif/bin/gsverif} checkall 2>&1)
   det=$(echo "$res" | grep '^VIOLATION' | sed 's/VIOLATION property=\([A-Z0-9]*\).*/\1/' | sort -u | tr '\n' ' ')
   own=${seed%%-*}
   case " $det " in *" $own "*) o=yes;; *) o=NO;; esac
